@@ -362,7 +362,7 @@ func c18Case(w *core.Worker, i int) {
 			}
 			if err2 != nil {
 				sub := ""
-				if strings.Contains(s1, " IGNORE NULLS)") {
+				if strings.Contains(s1, " IGNORE NULLS)") || strings.Contains(s1, "(IGNORE NULLS)") { // the latter: no argument before it
 					sub = ":ignore-nulls-printed-inside-the-argument-list"
 				}
 				viol("reparse-fails:"+reflect.TypeOf(e).Name()+sub, fmt.Sprintf("the text csvq prints for a %s does not parse: %q -> %v", reflect.TypeOf(e).Name(), s1, err2), s1)
